@@ -481,7 +481,7 @@ example : (drain (measure sampleState) (cancel sampleState)).live = [] ∧
     (drain (measure sampleState) (cancel sampleState)).tracerDone = true :=
   let r := cancel_drains sampleTable (by decide) sampleState sampleState_wf; ⟨r.1, r.2.1⟩
 
-/-- the run is not trivial: eleven goroutine steps are needed -/
+/-- the run is not trivial: nine goroutine steps are needed, eight do not suffice -/
 example : measure sampleState = 9 := by decide
 example : (drain 8 (cancel sampleState)).live ≠ [] := by decide
 
